@@ -92,6 +92,23 @@ type TextTag struct {
 
 func (t *TextTag) MarshalText() ([]byte, error) { return []byte("text:" + t.V), nil }
 
+// MutEnv is published by pointer and names itself from a field that a
+// before-publish hook fills in when it is empty (a hook that stamps defaults):
+// the record's type name is that of the event as stored and delivered.
+type MutEnv struct {
+	ID   int    `json:"id"`
+	Kind string `json:"kind"`
+}
+
+func (e *MutEnv) EventTypeName() string { return "c09.mut." + e.Kind }
+
+// stamp is what the harness's before-publish hooks do to a MutEnv.
+func stamp(ev any) {
+	if m, ok := ev.(*MutEnv); ok && m.Kind == "" {
+		m.Kind = "created"
+	}
+}
+
 // Unenc has no JSON encoding: publishing it fails to persist (and is reported
 // to the persistence error handler) without touching the log.
 type Unenc struct {
@@ -232,9 +249,9 @@ func Run(c *Case) *vkit.Outcome {
 				opts = append(opts, eventbus.WithStore(decoy))
 			}
 		case "before":
-			opts = append(opts, eventbus.WithBeforePublish(func(reflect.Type, any) { hookCalls.Add(1) }))
+			opts = append(opts, eventbus.WithBeforePublish(func(_ reflect.Type, ev any) { hookCalls.Add(1); stamp(ev) }))
 		case "beforectx":
-			opts = append(opts, eventbus.WithBeforePublishContext(func(context.Context, reflect.Type, any) { hookCalls.Add(1) }))
+			opts = append(opts, eventbus.WithBeforePublishContext(func(_ context.Context, _ reflect.Type, ev any) { hookCalls.Add(1); stamp(ev) }))
 		case "after":
 			opts = append(opts, eventbus.WithAfterPublish(func(reflect.Type, any) { hookCalls.Add(1) }))
 		case "afterctx":
@@ -309,6 +326,7 @@ func Run(c *Case) *vkit.Outcome {
 	eventbus.Subscribe(bus, func(e PtrMarsh) { inHandler(e.ID, e) })
 	eventbus.Subscribe(bus, func(e *PtrMarsh) { inHandler(e.ID, e) })
 	eventbus.Subscribe(bus, func(e Holder) { inHandler(e.ID, e) })
+	eventbus.Subscribe(bus, func(e *MutEnv) { inHandler(e.ID, e) })
 
 	publish := func(id int, v Val) {
 		var ev any
@@ -341,6 +359,13 @@ func Run(c *Case) *vkit.Outcome {
 			eventbus.Publish(bus, e)
 		case "ptrmarshptr":
 			e := &PtrMarsh{ID: id, S: v.S}
+			ev = e
+			eventbus.Publish(bus, e)
+		case "mutenv":
+			e := &MutEnv{ID: id}
+			if len(v.S)%2 == 1 {
+				e.Kind = "given"
+			}
 			ev = e
 			eventbus.Publish(bus, e)
 		case "holder":
@@ -553,6 +578,12 @@ func decodesBack(se *eventbus.StoredEvent, want []byte) bool {
 			return false
 		}
 		v = e
+	case "c09.mut.", "c09.mut.created", "c09.mut.given":
+		var e MutEnv
+		if json.Unmarshal(se.Data, &e) != nil || e.EventTypeName() != se.Type {
+			return false
+		}
+		v = &e
 	case "c09.named.v1":
 		var e Named
 		if json.Unmarshal(se.Data, &e) != nil {
